@@ -37,11 +37,18 @@ structure Cfg where
       results_log on every call (a seeded defect: the structure built so far is kept with the number of entries already
       sorted in, and `begin_session` — which replaces a running session — does not drop it) -/
   viewsDeriveFromCurrentLog : Bool := true
+  /-- `begin_session` reads the session's grid (start, dt, stop) AFTER the run specs of the session settings were applied
+      to the scenario (a seeded defect: the clock is read first, the settings are applied afterwards — the session walks the old grid) -/
+  sessionClockFromAppliedSettings : Bool := true
+  /-- `run_scenarios(return_format="df")` over several scenarios keeps the time grid of every scenario (outer join of the
+      columns); the repaired defect: every column is aligned to the index of the first scenario -/
+  dfKeepsEveryScenarioGrid : Bool := true
 deriving DecidableEq, Repr
 
 def Cfg.good (c : Cfg) : Bool :=
   c.sessionDtFromScenario && c.stepClockNormalised && c.stepFinalisesAll && c.runResetsOnAnySettings &&
-    c.changeEquationKeepsMemo && c.settingsAppliedPerKey && c.viewsDeriveFromCurrentLog
+    c.changeEquationKeepsMemo && c.settingsAppliedPerKey && c.viewsDeriveFromCurrentLog &&
+    c.sessionClockFromAppliedSettings && c.dfKeepsEveryScenarioGrid
 
 /-- The abstract simulator: `val f e k` is the value of equation `e` at grid index `k` when the
 settings in force at grid index `i` are `f i`. -/
@@ -358,5 +365,33 @@ def idealReads {L V : Type} : List (VOp L V) → List (Row L V) → List (List (
   | .step r :: ops, log => idealReads ops (log ++ [r])
   | .read :: ops, log => log :: idealReads ops log
   | .endS :: ops, _ => idealReads ops []
+
+/-! ### Wave 11 — the session's grid after its settings; the dataframe over several scenarios -/
+
+/-- the grid a session walks: `old` = the scenario's run specs when `begin_session` is entered, `new` = after the run specs of
+the session settings were applied -/
+def beginSpec {L : Type} (c : Cfg) (old new : Spec L) : Spec L :=
+  if c.sessionClockFromAppliedSettings then new else old
+
+/-- one scenario's series of a batch run for a fixed equation: (time, value) on ITS grid -/
+abbrev Series (V : Type) := List (Nat × V)
+
+def cellOf {V : Type} (s : Series V) (t : Nat) : Option V :=
+  match s with
+  | [] => none
+  | (t', v) :: r => if t' = t then some v else cellOf r t
+
+/-- the dict / json format: per scenario its own series -/
+def dictCell {V : Type} (ss : List (Series V)) (i t : Nat) : Option V := (ss[i]?).bind (fun s => cellOf s t)
+
+/-- the dataframe: one index for all columns -/
+def dfIndex {V : Type} (c : Cfg) (ss : List (Series V)) : List Nat :=
+  if c.dfKeepsEveryScenarioGrid then ss.flatMap (fun s => s.map (·.1))
+  else match ss with
+    | [] => []
+    | s :: _ => s.map (·.1)
+
+def dfCell {V : Type} (c : Cfg) (ss : List (Series V)) (i t : Nat) : Option V :=
+  if t ∈ dfIndex c ss then dictCell ss i t else none
 
 end Bptk.C09
